@@ -554,3 +554,130 @@ theorem plain_covers (text : Bytes) (t : Token) (semType mods : UInt32)
   simp only [coversTok, h1, h2, h3, Bool.and_self]
 
 end HL.Lemmas.SemTok
+
+namespace HL.Lemmas.SemTok
+open HL HL.SemTok HL.SemTokSpec
+
+/-! ### what the tag spans contain -/
+
+theorem orderedDisjoint_weakly (l : List AbsTok) (h : orderedDisjoint l = true) :
+    weaklyOrdered l = true := by
+  induction l with
+  | nil => rfl
+  | cons a rest ih =>
+    cases rest with
+    | nil => rfl
+    | cons b r =>
+      simp only [orderedDisjoint, weaklyOrdered, Bool.and_eq_true, Bool.or_eq_true,
+        decide_eq_true_eq, beq_iff_eq] at h ⊢
+      refine ⟨?_, ih h.2⟩
+      rcases h.1 with h1 | ⟨h1, h2⟩
+      · exact Or.inl h1
+      · exact Or.inr ⟨h1, by omega⟩
+
+theorem indexOf_spec (pat s : Bytes) (i : Nat) (h : indexOf pat s = some i) :
+    (s.drop i).take pat.length = pat := by
+  induction s generalizing i with
+  | nil =>
+    simp only [indexOf] at h
+    split at h
+    · cases h; simp_all [List.isEmpty_iff]
+    · cases h
+  | cons b bs ih =>
+    simp only [indexOf] at h
+    split at h
+    · rename_i hp
+      cases h
+      obtain ⟨r, hr⟩ := List.isPrefixOf_iff_prefix.mp hp
+      rw [List.drop_zero, ← hr]; simp
+    · cases hi : indexOf pat bs with
+      | none => simp [hi] at h
+      | some j =>
+        simp [hi] at h
+        subst h
+        simpa using ih j hi
+
+/-- What a span found by `extractTagTokensFromComment` holds: a tag span is `name:` for a name
+    that `isValidTagName` accepts; a value span is not empty. -/
+def SpanContent (cls : Classes) (comment : Bytes) (sp : TagSpan) : Prop :=
+  (sp.ty = tyTag ∧ ∃ name, isValidTagName cls name = true ∧ sp.len = name.length + 1 ∧
+      (comment.drop sp.off).take sp.len = name ++ [colon]) ∨
+  (sp.ty = tyTagValue ∧ 0 < sp.len)
+
+theorem extractStep_content (cls : Classes) (comment : Bytes) (st : Nat × List TagSpan)
+    (part : Bytes) :
+    ∀ sp ∈ (extractStep cls comment st part).2, sp ∈ st.2 ∨ SpanContent cls comment sp := by
+  generalize hres : extractStep cls comment st part = res
+  simp only [extractStep] at hres
+  generalize trimSpace part = trimmed at hres
+  split at hres
+  · subst hres; exact fun sp h => Or.inl h
+  · rename_i colonIdx _
+    generalize trimSpace (List.take colonIdx trimmed) = name at hres
+    generalize (if colonIdx + 1 < trimmed.length then trimSpace (List.drop (colonIdx + 1) trimmed) else []) = value at hres
+    split at hres
+    · subst hres; exact fun sp h => Or.inl h
+    · rename_i hname
+      split at hres
+      · subst hres; exact fun sp h => Or.inl h
+      · rename_i ts hts
+        have hvalid : isValidTagName cls name = true := by
+          simp only [Bool.or_eq_true, Bool.not_eq_true', not_or, Bool.not_eq_false] at hname
+          exact hname.2
+        have hspec := indexOf_spec _ _ _ hts
+        simp only [List.drop_drop, List.length_append, List.length_singleton] at hspec
+        have htag : SpanContent cls comment { off := ts + st.1, len := name.length + 1, ty := tyTag } := by
+          refine Or.inl ⟨rfl, name, hvalid, rfl, ?_⟩
+          have e : st.1 + ts = ts + st.1 := Nat.add_comm _ _
+          first
+            | exact hspec
+            | (rw [e] at hspec; exact hspec)
+        split at hres
+        · subst hres
+          intro sp h
+          rcases List.mem_append.mp h with h | h
+          · exact Or.inl h
+          · simp at h; subst h; exact Or.inr htag
+        · rename_i hval
+          have hvpos : 0 < value.length := by
+            cases value with
+            | nil => simp at hval
+            | cons _ _ => simp
+          split at hres
+          · subst hres
+            intro sp h
+            rcases List.mem_append.mp h with h | h
+            · exact Or.inl h
+            · simp at h; subst h; exact Or.inr htag
+          · subst hres
+            intro sp h
+            rcases List.mem_append.mp h with h | h
+            · rcases List.mem_append.mp h with h | h
+              · exact Or.inl h
+              · simp at h; subst h; exact Or.inr htag
+            · simp at h; subst h; exact Or.inr (Or.inr ⟨rfl, hvpos⟩)
+
+theorem extractFold_content (cls : Classes) (comment : Bytes) (parts : List Bytes)
+    (st : Nat × List TagSpan) :
+    ∀ sp ∈ (parts.foldl (extractStep cls comment) st).2, sp ∈ st.2 ∨ SpanContent cls comment sp := by
+  induction parts generalizing st with
+  | nil => exact fun sp h => Or.inl h
+  | cons p rest ih =>
+    intro sp h
+    rcases ih (extractStep cls comment st p) sp h with h | h
+    · exact extractStep_content cls comment st p sp h
+    · exact Or.inr h
+
+/-- Every tag token is cut out of the comment exactly around `name:` (a name the Go predicate
+    `isValidTagName` accepts), every tag value token around a non-empty string. -/
+theorem extractSpans_content (cls : Classes) (comment : Bytes) :
+    ∀ sp ∈ extractSpans cls comment, SpanContent cls comment sp := by
+  unfold extractSpans
+  split
+  · simp
+  · intro sp h
+    rcases extractFold_content cls comment _ (0, []) sp h with h | h
+    · simp at h
+    · exact h
+
+end HL.Lemmas.SemTok
